@@ -184,20 +184,27 @@ def updateNode (big : α) (st : FState α) (node : Nat × Nat) (newCost : α) (a
     { st with F := F1.put node newCost, A := st.A.put node ant, T := st.T.put node newCost }
   else { st with F := F1 }
 
+/-- one of the three guarded `_update_node` calls of the loop body: `if cond: dist = D[y]; _update_node(F, T, y, weight(T[i,j], dist), V, A, node)` -/
+def relax (big : α) (w : α → α → α) (D : Nat → Nat → Option α) (node : Nat × Nat) (tij : α) (cond : Bool)
+    (y : Nat × Nat) (st : FState α) : Option (FState α) :=
+  if cond then (D y.1 y.2).map (fun d => updateNode big st y (w tij d) node) else some st
+
 /-- the `while(1)` loop of `_fdtw`; `none` = an exception in the Python (empty queue, unset cell) -/
 def fdtwLoop (big : α) (w : α → α → α) (D : Nat → Nat → Option α) (n1 n2 : Nat) : Nat → FState α → Option (FState α)
   | 0, _ => none
-  | fuel+1, st => do
-    let (node, _) ← popSmallest st.F
-    let i := node.1
-    let j := node.2
-    let st := { st with F := st.F.filter (fun e => !(e.1 == node)), V := node :: st.V }
-    if i = n2 - 1 ∧ j = n1 - 1 then some st else
-    let tij := (st.T.get? node).getD 0          -- `T = np.zeros(...)`
-    let st ← if i < n2 - 1 ∧ j < n1 - 1 then (D (i+1) (j+1)).map (fun d => updateNode big st (i+1, j+1) (w tij d) node) else some st
-    let st ← if j < n1 - 1 then (D i (j+1)).map (fun d => updateNode big st (i, j+1) (w tij d) node) else some st
-    let st ← if i < n2 - 1 then (D (i+1) j).map (fun d => updateNode big st (i+1, j) (w tij d) node) else some st
-    fdtwLoop big w D n1 n2 fuel st
+  | fuel+1, st =>
+    match popSmallest st.F with
+    | none => none
+    | some (node, _) =>
+      let i := node.1
+      let j := node.2
+      let st := { st with F := st.F.filter (fun e => !(e.1 == node)), V := node :: st.V }
+      if i = n2 - 1 ∧ j = n1 - 1 then some st else
+      let tij := (st.T.get? node).getD 0          -- `T = np.zeros(...)`
+      (relax big w D node tij (decide (i < n2 - 1 ∧ j < n1 - 1)) (i+1, j+1) st).bind fun st =>
+      (relax big w D node tij (decide (j < n1 - 1)) (i, j+1) st).bind fun st =>
+      (relax big w D node tij (decide (i < n2 - 1)) (i+1, j) st).bind fun st =>
+      fdtwLoop big w D n1 n2 fuel st
 
 /-- `_fdtw(track1, track2, weight, dim)` -/
 def fdtw (sqrt : α → α) (big : α) (w : α → α → α) (dim : Nat) (t1 t2 : List (Pt α)) : Option (Out α) := do
